@@ -1278,6 +1278,25 @@ impl OpenOptions {
     pub fn open<P: AsRef<Path>>(&self, path: P) -> Result<File> {
         let path = path.as_ref().to_path_buf();
 
+        // Same option validation as std::fs::OpenOptions (EINVAL): an access mode is
+        // required, creating/truncating needs write or append access, and append
+        // excludes truncate.
+        if !self.read && !self.write && !self.append {
+            return Err(Error::new(ErrorKind::InvalidInput, "invalid access mode"));
+        }
+        if !self.write && !self.append && (self.truncate || self.create || self.create_new) {
+            return Err(Error::new(
+                ErrorKind::InvalidInput,
+                "creating or truncating a file requires write or append access",
+            ));
+        }
+        if self.append && self.truncate && !self.create_new {
+            return Err(Error::new(
+                ErrorKind::InvalidInput,
+                "append and truncate are mutually exclusive",
+            ));
+        }
+
         FsContext::current(|ctx| {
             // Follow symlinks to resolve the actual file path
             let resolved_path = if ctx.fs.symlink_exists(&path) {
